@@ -45,6 +45,10 @@ fn render(rng: &mut Rng, allow_repeat: bool) -> Rendered {
     let sp = |rng: &mut Rng, lo: usize, hi: usize| " ".repeat(rng.range(lo, hi));
     for e in 0..nent {
         for _ in 0..rng.below(3) {
+            // blank lines, some of them made of spaces only
+            if rng.chance(1, 3) {
+                text.push_str(&" ".repeat(rng.range(1, 4)));
+            }
             text.push('\n');
         }
         let windows = rng.chance(1, 6);
